@@ -269,7 +269,9 @@ func evalTables(c *tablesCase, st *stats) *harness.Fail {
 		if got := stbl.Stts.GetDur(u); got != x.Dur[nr] {
 			return harness.Failf("C09|SttsBox.GetDur|duration differs", "GetDur(%d) = %d, expansion %d (stts %v)", nr, got, x.Dur[nr], tb.Stts)
 		}
-		wantTC := time.Second * time.Duration(x.DecodeTime[nr]) / time.Duration(model.Timescale)
+		// floor(units*1e9/timescale) without intermediate overflow (units < 2^39 here, so the result fits)
+		tsc := uint64(model.Timescale)
+		wantTC := time.Duration(x.DecodeTime[nr]/tsc)*time.Second + time.Duration(x.DecodeTime[nr]%tsc*1000000000/tsc)
 		if got := stbl.Stts.GetTimeCode(u, model.Timescale); got != wantTC {
 			return harness.Failf("C09|SttsBox.GetTimeCode|time differs", "GetTimeCode(%d,%d) = %v, expansion %v (stts %v)", nr, model.Timescale, got, wantTC, tb.Stts)
 		}
@@ -559,7 +561,7 @@ func genCase(t *rapid.T, variant string) tablesCase {
 	if rapid.IntRange(0, 9).Draw(t, "bigN") == 0 {
 		maxN = harness.Pick(60, 120) // some cases above the all-intervals bound in the quick tier as well
 	}
-	tracks := mp4build.GenTracks(t, mp4build.GenOpt{MaxSamples: maxN, AllowFinalZeroDur: true, ExtremeCto: true,
+	tracks := mp4build.GenTracks(t, mp4build.GenOpt{MaxSamples: maxN, AllowFinalZeroDur: true, ExtremeCto: true, ExtremeDur: true,
 		StsdEntries: rapid.SampledFrom([]int{1, 1, 2, 3}).Draw(t, "stsdEntries")})
 	c := tablesCase{Tracks: tracks, Variant: variant}
 	c.Layout = mp4build.GenProgLayout(t, tracks)
